@@ -17,11 +17,20 @@
   and returns `w` itself.  Hypotheses: FindLayers succeeds, the layer is in its table, the
   mount table parses (otherwise the command fails even earlier).  The child-busy case is
   not composed end to end (it holds at level 1 for every probed table).
+
+  Level 4 (section 6, specification level): the same on the installation `instOf cfg w` a world
+  shows, in the words of `Spec.World` (`protectedL`, `mountedAtOrBelow`, `overlain`,
+  `mountBusy`, `unmountBlocked`, `childrenOf` — what the oracle c04 evaluates), with no
+  hypothesis on FindLayers, the parsed view or the probed table: `protected_refused` (FULL,
+  only `KWF`), `child_protected_refused_partial` (child's layerconfig without messages;
+  `child_in_error_state_not_protected_witness` shows the hypothesis is needed: a defect),
+  `umount_blocked_refused`, `umount_free_proceeds_partial`.
 -/
 import Lc.Lemmas.RunM
 import Lc.Lemmas.Busy
 import Lc.Lemmas.Probe
 import Lc.Lemmas.TreeOrder
+import Lc.Lemmas.ProtectSpec
 
 namespace Lc.Props.C04
 open Lc Lc.Layers Lc.RunM Lc.Mountinfo Lc.Busy Lc.Hoare Lc.Probe Lc.Forest
@@ -429,5 +438,423 @@ set_option maxRecDepth 100000 in
 example : ∃ e, run exCfg [(b!"a", [⟨1, b!"build"⟩])] (.remove b!"a" false) exW = (.error e, exW) :=
   remove_end_to_end_partial exCfg [(b!"a", [⟨1, b!"build"⟩])] exW { layers := [exL], order := [b!"a"] } exL {} false
     rfl (by decide) rfl (Or.inr (Or.inl (by decide)))
+
+/-! ### 6. at the level of the specification: `Spec.World.protectedL` / `unmountBlocked` on the
+    installation a world shows
+
+  `instOf cfg w` is the installation (configuration, tree, kernel mount table) the world shows;
+  `Spec.World.diskLayers`, `protectedL`, `mountedAtOrBelow`, `overlain`, `mountBusy`,
+  `unmountBlocked`, `childrenOf` are the oracle's (`Driver/Oracle.lean` c04) readings of it.
+  No hypothesis mentions the parsed mount view any more: `KWF` (the kernel table is printable)
+  gives it (`probe_view`), `findLayers_lists` gives the records of the listed layers. -/
+
+open Lc.Spec.World in
+/-- a command of the shape "load and probe, then `k`" fails, world unchanged, as soon as
+    `FindLayers` fails -/
+theorem getLayers_bind_findLayers_error (cfg : Config) (inuse : List (Bytes × List User)) (w : World)
+    (k : Defs → M Defs) (e : Fault) (h : (findLayers cfg).run.run w = (.error e, w)) :
+    (getLayers cfg inuse >>= k).run.run w = (.error e, w) := by
+  unfold getLayers
+  rw [run_bind, run_bind, h]
+
+open Lc.Spec.World Lc.StateProbe in
+/-- the specification's protection condition on the installation is the busy condition of
+    section 5 on the parsed view -/
+theorem worldBusy_of_protected (cfg : Config) (users : List (Bytes × List User)) (w : World) (m : Mounts)
+    (hv : MountsView w.kt.mnts m) (n : Bytes) (lf : Layerfile.LayerFile)
+    (hp : protectedL (instOf cfg w) users n = true) :
+    WorldBusy cfg users m (layerOfFile cfg n lf) := by
+  unfold protectedL at hp
+  simp only [Bool.or_eq_true, Bool.not_eq_true'] at hp
+  unfold WorldBusy
+  rcases hp with (hp | hp) | hp
+  · left
+    have hlen := (mounts_nonempty_view hv (buildDir (instOf cfg w) n)).mpr hp
+    apply (mounts_listed m (buildPath cfg (layerOfFile cfg n lf))).mp
+    intro hnil
+    rw [buildPath_layerOfFile cfg w n lf] at hnil
+    rw [hnil] at hlen
+    simp at hlen
+  · right; left
+    show Lc.Spec.World.usersOf users n ≠ []
+    intro e; rw [e] at hp; simp at hp
+  · right; right
+    apply (overlain_iff m (buildPath cfg (layerOfFile cfg n lf))).mp
+    rw [overlain_of_view w.kt.mnts m hv, buildPath_layerOfFile cfg w n lf]
+    exact hp
+
+open Lc.Spec.World Lc.StateProbe in
+/-- **Protected layers are not changed** (specification level, FULL).  For every
+    configuration, process list and world whose kernel table is printable (`KWF`), and every
+    layer `n` the specification lists on the installation the world shows: if `n` is
+    protected — a mount at or below its build root in the kernel table, a process attributed
+    to it, or a mounted overlay with its build root as lower directory — then `remove`
+    (with or without -files), `rename` (to any name, any child order) and `rebase` (onto
+    anything) are refused and the world — tree, kernel table, trace, counters — is exactly
+    the one before.  (A `FindLayers` that fails, a probe that fails, a layerconfig with
+    messages: the command fails as well, world unchanged.) -/
+theorem protected_refused (cfg : Config) (users : List (Bytes × List User)) (w : World)
+    (hk : ∀ k ∈ w.kt.mnts, Lc.KernelWF.KWF k) (n : Bytes)
+    (hn : (findD (diskLayers (instOf cfg w)) n).isSome = true)
+    (hp : protectedL (instOf cfg w) users n = true) :
+    (∀ files, ∃ e, run cfg users (.remove n files) w = (.error e, w)) ∧
+    (∀ new co, ∃ e, run cfg users (.rename n new co) w = (.error e, w)) ∧
+    (∀ nb, ∃ e, run cfg users (.rebase n nb) w = (.error e, w)) := by
+  obtain ⟨dl, hd⟩ := Option.isSome_iff_exists.mp hn
+  obtain ⟨hnp, hw⟩ := Lc.Props.C02.list_total cfg w
+  cases hfl : (findLayers cfg).run.run w with
+  | mk r w1 =>
+    have hw1 : w1 = w := by rw [hfl] at hw; exact hw
+    subst hw1
+    cases r with
+    | error e =>
+      exact ⟨fun files => ⟨e, getLayers_bind_findLayers_error cfg users w1 _ e hfl⟩,
+        fun new co => ⟨e, getLayers_bind_findLayers_error cfg users w1 _ e hfl⟩,
+        fun nb => ⟨e, getLayers_bind_findLayers_error cfg users w1 _ e hfl⟩⟩
+    | ok d0 =>
+      obtain ⟨-, hl0, hnm, -⟩ := findLayers_lists cfg w1 w1 d0 hfl n dl hd
+      obtain ⟨m, hm, hv⟩ := world_view w1 hk
+      rw [hnm] at hl0
+      have hb := worldBusy_of_protected cfg users w1 m hv n dl.file hp
+      have hname : (layerOfFile cfg n dl.file).name = n := rfl
+      refine ⟨fun files => ?_, fun new co => ?_, fun nb => ?_⟩
+      · have := remove_end_to_end_partial cfg users w1 d0 (layerOfFile cfg n dl.file) m files hfl
+          (by rw [hname]; exact hl0) hm hb
+        rwa [hname] at this
+      · have := rename_end_to_end_partial cfg users w1 d0 (layerOfFile cfg n dl.file) m new co hfl
+          (by rw [hname]; exact hl0) hm hb
+        rwa [hname] at this
+      · have := rebase_end_to_end_partial cfg users w1 d0 (layerOfFile cfg n dl.file) m nb hfl
+          (by rw [hname]; exact hl0) hm hb
+        rwa [hname] at this
+
+/-- after a successful `FindLayers`, "load and probe, then `k`" is the probe followed by `k` -/
+theorem getLayers_bind_cases (cfg : Config) (inuse : List (Bytes × List User)) (w : World)
+    (k : Defs → M Defs) (d0 : Defs) (hfl : (findLayers cfg).run.run w = (.ok d0, w)) :
+    (getLayers cfg inuse >>= k).run.run w =
+      match (probeAll cfg inuse d0).run.run w with
+      | (.ok d, w') => (k d).run.run w'
+      | (.error e, w') => (.error e, w') := by
+  unfold getLayers
+  rw [run_bind, run_bind, hfl]
+  simp only
+  generalize (StateT.run (ExceptT.run (probeAll cfg inuse d0)) w) = r
+  obtain ⟨a, s⟩ := r
+  cases a <;> rfl
+
+open Lc.Spec.World Lc.StateProbe in
+/-- skeleton of the specification-level statements about a listed layer `n`: whatever the
+    outcome of `FindLayers` and of the probe, the command ends in an error with the world
+    unchanged, provided `k` does so on every probed table in which the records of the listed
+    layers are as `getLayers_record` describes them -/
+theorem guarded_spec (cfg : Config) (users : List (Bytes × List User)) (w : World)
+    (hk : ∀ k ∈ w.kt.mnts, Lc.KernelWF.KWF k)
+    (hnd : ((diskLayers (instOf cfg w)).map (·.name)).Nodup) (n : Bytes)
+    (hn : (findD (diskLayers (instOf cfg w)) n).isSome = true) (k : Defs → M Defs)
+    (hk' : ∀ d0 d, (findLayers cfg).run.run w = (.ok d0, w) →
+      (probeAll cfg users d0).run.run w = (.ok d, w) → ∃ e, (k d).run.run w = (.error e, w)) :
+    ∃ e, (getLayers cfg users >>= k).run.run w = (.error e, w) := by
+  obtain ⟨dl, hd⟩ := Option.isSome_iff_exists.mp hn
+  obtain ⟨-, hw⟩ := Lc.Props.C02.list_total cfg w
+  cases hfl : (findLayers cfg).run.run w with
+  | mk r w1 =>
+    have hw1 : w1 = w := by rw [hfl] at hw; exact hw
+    subst hw1
+    cases r with
+    | error e => exact ⟨e, getLayers_bind_findLayers_error cfg users w1 _ e hfl⟩
+    | ok d0 =>
+      rw [getLayers_bind_cases cfg users w1 k d0 hfl]
+      obtain ⟨-, hl0, -, hord⟩ := findLayers_lists cfg w1 w1 d0 hfl n dl hd
+      obtain ⟨m, hm, -⟩ := world_view w1 hk
+      have hpr := probeAll_layer cfg users d0 w1 m n _ hm hl0 hord
+      cases hpa : (probeAll cfg users d0).run.run w1 with
+      | mk a s =>
+        rw [hpa] at hpr
+        cases a with
+        | error e => simp only at hpr ⊢; subst hpr; exact ⟨e, rfl⟩
+        | ok d =>
+          simp only at hpr ⊢
+          obtain ⟨hs, -⟩ := hpr
+          subst hs
+          exact hk' d0 d hfl hpa
+
+open Lc.Spec.World Lc.StateProbe in
+/-- the record of a protected listed layer whose layerconfig was read without messages is
+    busy for remove / rename / rebase -/
+theorem record_busy_of_protected (cfg : Config) (users : List (Bytes × List User)) (w : World)
+    (n : Bytes) (l : Layer) (hp : protectedL (instOf cfg w) users n = true)
+    (hov : l.overlain = overlain (instOf cfg w) n)
+    (hm : l.mounts.length > 0 ↔ mountedAtOrBelow (instOf cfg w) n = true)
+    (hu : Lc.StateProbe.usersOf users n ≠ [] → l.mountBusy = true ∨ l.nonMountBusy = true) :
+    isBusy l true = true := by
+  unfold protectedL at hp
+  simp only [Bool.or_eq_true, Bool.not_eq_true'] at hp
+  rcases hp with (hp | hp) | hp
+  · have := hm.mpr hp
+    simp [isBusy, this]
+  · have hne : Lc.StateProbe.usersOf users n ≠ [] := by
+      show Lc.Spec.World.usersOf users n ≠ []
+      intro e; rw [e] at hp; simp at hp
+    rcases hu hne with h | h <;> simp [isBusy, h]
+  · rw [← hov] at hp
+    simp [isBusy, hp]
+
+open Lc.Spec.World Lc.StateProbe in
+/-- **A protected direct child protects its parent from rename and rebase** (specification
+    level).  PARTIAL in one decidable hypothesis, `hmsg`: the child's layerconfig was read
+    without messages.  Without it the statement is FALSE for the code: the probe skips a
+    layer in the error state, so its record lists no mounts and no process, and
+    `rename`/`rebase` of the parent go ahead although the child is mounted
+    (`child_in_error_state_not_protected_witness`; reproduced on the implementation).
+    Further hypotheses: `KWF` and distinct layer names (`hnd`).  `kn` is a direct child of `n`
+    per `Spec.World.childrenOf` and is protected (a mount at or below its build root, a process
+    attributed to it, or overlain): `rename n …` and `rebase n …` are refused, world unchanged. -/
+theorem child_protected_refused_partial (cfg : Config) (users : List (Bytes × List User)) (w : World)
+    (hk : ∀ k ∈ w.kt.mnts, Lc.KernelWF.KWF k)
+    (hnd : ((diskLayers (instOf cfg w)).map (·.name)).Nodup) (n kn : Bytes)
+    (hn : (findD (diskLayers (instOf cfg w)) n).isSome = true)
+    (hkid : kn ∈ childrenOf (diskLayers (instOf cfg w)) n)
+    (hmsg : ∀ dk ∈ diskLayers (instOf cfg w), dk.name = kn → dk.file.nmsgs = 0)
+    (hp : protectedL (instOf cfg w) users kn = true) :
+    (∀ new co, ∃ e, run cfg users (.rename n new co) w = (.error e, w)) ∧
+    (∀ nb, ∃ e, run cfg users (.rebase n nb) w = (.error e, w)) := by
+  obtain ⟨dl, hd⟩ := Option.isSome_iff_exists.mp hn
+  obtain ⟨dk, hdkm, hdkn, hdkb⟩ := childrenOf_mem _ n kn hkid
+  have hdk : findD (diskLayers (instOf cfg w)) kn = some dk := by
+    rw [← hdkn]; exact findD_of_mem _ hnd dk hdkm
+  have h0 := hmsg dk hdkm hdkn
+  -- the records of parent and child in every probed table
+  have key : ∀ d0 d, (findLayers cfg).run.run w = (.ok d0, w) →
+      (probeAll cfg users d0).run.run w = (.ok d, w) →
+      ∃ l k, findLayer d n = some l ∧ findLayer d k.name = some k ∧ k.base = n ∧ isBusy k true = true := by
+    intro d0 d hfl hpa
+    obtain ⟨-, l, hl, -, -, -, -, -⟩ := getLayers_record cfg users w w d0 d hk hnd hfl hpa n dl hd
+    obtain ⟨-, k, hkf, hkn, hkb, hkov, -, hk0⟩ := getLayers_record cfg users w w d0 d hk hnd hfl hpa kn dk hdk
+    obtain ⟨hkm, -, hku, -⟩ := hk0 h0
+    refine ⟨l, k, hl, by rw [hkn]; exact hkf, hkb.trans hdkb, ?_⟩
+    exact record_busy_of_protected cfg users w kn k hp hkov hkm hku
+  constructor
+  · intro new co
+    refine guarded_spec cfg users w hk hnd n hn (fun d => renameLayer cfg d n new co) ?_
+    intro d0 d hfl hpa
+    obtain ⟨l, k, hl, hkf, hkb, hb⟩ := key d0 d hfl hpa
+    obtain ⟨c, _, h⟩ := rename_child_refuses cfg d n new co w l k hl hkf hkb hb
+    exact ⟨_, h⟩
+  · intro nb
+    refine guarded_spec cfg users w hk hnd n hn (fun d => rebaseLayer cfg d n nb) ?_
+    intro d0 d hfl hpa
+    obtain ⟨l, k, hl, hkf, hkb, hb⟩ := key d0 d hfl hpa
+    obtain ⟨c, _, h⟩ := rebase_child_refuses cfg d n nb w l k hl (List.mem_of_find?_eq_some hkf) hkb hb
+    exact ⟨_, h⟩
+
+/-- `umount <name>` of a layer that is neither busy nor has mounts listed answers
+    "notmounted" and does nothing -/
+theorem umountCmd_notMounted (cfg : Config) (d : Defs) (name : Bytes) (w : World) (l : Layer)
+    (hl : findLayer d name = some l) (hb : isBusy l false = false) (hm : l.mounts = []) :
+    Refused ((unmountCmd cfg d name false).run.run w) w ["needarg", "name", "notmounted"] := by
+  have h : (unmountLayer cfg d name).run.run w = (.ok (.notMounted, d), w) := by
+    unfold unmountLayer getL
+    simp only [hl, hb, hm, run_bind, run_pure]
+    rfl
+  unfold Refused unmountCmd testName fail
+  simp only [run_bind, run_ite, run_pure, run_throw, Bool.and_false]
+  by_cases h0 : name.length > 0 <;>
+    by_cases h1 : (List.all [(name, NAME_NEED)] fun t => testName1 d t.fst t.snd) = true <;>
+    simp [h0, h1, h] <;> (right; right; rfl)
+
+open Lc.Spec.World Lc.StateProbe in
+/-- **umount refuses a blocked layer** (specification level).  For every configuration,
+    process list and world with a printable kernel table and distinct layer names, and every
+    listed layer `n`: if a process works inside its build, work or upper directory or a
+    mounted overlay has its build root as lower directory (`unmountBlocked`), then
+    `umount n` ends in an error and the world is exactly the one before — in particular no
+    unmount call was issued (the trace is unchanged) and the kernel table is unchanged.  (The
+    status is "busy"; for a layer whose layerconfig had messages and that is not overlain it
+    is "notmounted": the probe skipped it.) -/
+theorem umount_blocked_refused (cfg : Config) (users : List (Bytes × List User)) (w : World)
+    (hk : ∀ k ∈ w.kt.mnts, Lc.KernelWF.KWF k)
+    (hnd : ((diskLayers (instOf cfg w)).map (·.name)).Nodup) (n : Bytes)
+    (hn : (findD (diskLayers (instOf cfg w)) n).isSome = true)
+    (hb : unmountBlocked (instOf cfg w) users n = true) :
+    ∃ e, run cfg users (.umount n false) w = (.error e, w) := by
+  obtain ⟨dl, hd⟩ := Option.isSome_iff_exists.mp hn
+  refine guarded_spec cfg users w hk hnd n hn (fun d => unmountCmd cfg d n false) ?_
+  intro d0 d hfl hpa
+  obtain ⟨-, l, hl, -, -, hov, herr, hok⟩ := getLayers_record cfg users w w d0 d hk hnd hfl hpa n dl hd
+  unfold unmountBlocked at hb
+  by_cases hmsg : dl.file.nmsgs > 0
+  · obtain ⟨hm, hmb, -⟩ := herr hmsg
+    cases hovl : l.overlain with
+    | true =>
+      obtain ⟨c, _, h⟩ := umountCmd_refuses cfg d n w l hl (by simp [hovl])
+      exact ⟨_, h⟩
+    | false =>
+      obtain ⟨c, _, h⟩ := umountCmd_notMounted cfg d n w l hl (by simp [isBusy, hmb, hovl]) hm
+      exact ⟨_, h⟩
+  · obtain ⟨-, hmb, -, -⟩ := hok (by omega)
+    have hbusy : (l.mountBusy || l.overlain) = true := by
+      rw [hov, hmb]
+      simp only [Bool.or_eq_true] at hb ⊢
+      rcases hb with h | h
+      · exact Or.inl (modelMountBusy_of_spec cfg users n w h)
+      · exact Or.inr h
+    obtain ⟨c, _, h⟩ := umountCmd_refuses cfg d n w l hl hbusy
+    exact ⟨_, h⟩
+
+/-- what `umount <name>` leaves behind is what `unmountLayer` leaves behind (the command only
+    turns the status into a return value) -/
+theorem unmountCmd_world (cfg : Config) (d : Defs) (name : Bytes) (w : World)
+    (h0 : name.length > 0) (h1 : testName1 d name NAME_NEED = true) :
+    ((unmountCmd cfg d name false).run.run w).2 = ((unmountLayer cfg d name).run.run w).2 := by
+  unfold unmountCmd testName fail
+  simp only [run_bind, run_pure, Bool.and_false, h0, List.all_cons, h1,
+    List.all_nil, Bool.and_self, Bool.false_eq_true, ↓reduceIte, decide_true]
+  generalize (StateT.run (ExceptT.run (unmountLayer cfg d name)) w) = r
+  obtain ⟨a, s⟩ := r
+  cases a with
+  | error e => rfl
+  | ok p =>
+    obtain ⟨st, d'⟩ := p
+    cases st <;> rfl
+
+open Lc.Spec.World Lc.StateProbe in
+/-- **umount proceeds on a layer that is not blocked** (specification level, PARTIAL).  For a
+    listed layer `n` whose layerconfig was read without messages, that has a mount at or below
+    its build root in the kernel table and is NOT blocked (no process in its build, work or
+    upper directory, not overlain — processes elsewhere in the layer directory do not count):
+    the first thing `umount n` does to the world is an unmount call on a mountpoint at or below
+    the layer's build root.  PARTIAL: it assumes that loading and probing succeed (`hgl`, a
+    decidable statement about (cfg, users, w): `FindLayers` and the probe return), that the
+    three directory names of the configuration do not end in '/' (then the code's
+    SameDirectoryOrDescendant is the manual's "the directory or below"), `n ≠ ""`, not
+    pretending, and no fault / crash armed for the very next operation.  Which mountpoint goes
+    first (the deepest in tree order) and how the sequence continues is C03's subject. -/
+theorem umount_free_proceeds_partial (cfg : Config) (users : List (Bytes × List User)) (w : World)
+    (hk : ∀ k ∈ w.kt.mnts, Lc.KernelWF.KWF k)
+    (hnd : ((diskLayers (instOf cfg w)).map (·.name)).Nodup)
+    (hcb : cfg.buildRoot.getLast? ≠ some 47) (hcw : cfg.workdir.getLast? ≠ some 47)
+    (hcu : cfg.upperdir.getLast? ≠ some 47)
+    (n : Bytes) (hne : n ≠ []) (dl : DLayer)
+    (hd : findD (diskLayers (instOf cfg w)) n = some dl) (hmsg : dl.file.nmsgs = 0)
+    (hfree : unmountBlocked (instOf cfg w) users n = false)
+    (hmnt : mountedAtOrBelow (instOf cfg w) n = true)
+    (hgl : ((getLayers cfg users).run.run w).1.toOption.isSome = true)
+    (hp : w.pretend = false) (hc : w.crashAt ≠ some (w.nops + 1)) (hf : w.faultAt ≠ some (w.nops + 1)) :
+    ∃ mp rest, atOrBelow (buildDir (instOf cfg w) n) mp = true ∧
+      (run cfg users (.umount n false) w).2.trace =
+        w.trace ++ Op.umount mp (if w.force then 1 else 0) :: rest := by
+  cases hg : (getLayers cfg users).run.run w with
+  | mk r w' =>
+    rw [hg] at hgl
+    cases r with
+    | error e => simp [Except.toOption] at hgl
+    | ok d =>
+      obtain ⟨d0, hfl, hpa, -⟩ := getLayers_run cfg users w w' d hg
+      obtain ⟨hw, l, hl, -, -, hov, -, hok⟩ := getLayers_record cfg users w w' d0 d hk hnd hfl hpa n dl hd
+      subst hw
+      obtain ⟨hm, hmb, -, hat⟩ := hok hmsg
+      unfold unmountBlocked at hfree
+      simp only [Bool.or_eq_false_iff] at hfree
+      have hmb' : l.mountBusy = false := by
+        rw [hmb, modelMountBusy_eq_spec cfg users n w' hcb hcw hcu]; exact hfree.1
+      have hov' : l.overlain = false := by rw [hov]; exact hfree.2
+      have hlen := hm.mpr hmnt
+      obtain ⟨m, hlast⟩ : ∃ m, l.mounts.getLast? = some m := by
+        cases hx : l.mounts.getLast? with
+        | none =>
+          have := List.getLast?_eq_none_iff.mp hx
+          rw [this] at hlen; simp at hlen
+        | some m => exact ⟨m, rfl⟩
+      have hmem : m ∈ l.mounts := List.mem_of_getLast? hlast
+      obtain ⟨rest, htr⟩ := umount_nonMountBusy_proceeds cfg d n w' l m hl hmb' hov' hlast hp hc hf
+      refine ⟨m.mountpoint, rest, hat m hmem, ?_⟩
+      have hrun : run cfg users (.umount n false) w' = (unmountCmd cfg d n false).run.run w' := by
+        show (getLayers cfg users >>= fun d => unmountCmd cfg d n false).run.run w' = _
+        rw [bind_ok _ _ _ _ _ hg]
+      have hlegal : isLegalLayerName n = true := by
+        have := diskLayers_legal (instOf cfg w') dl (findD_mem _ _ dl hd)
+        rwa [findD_name _ n dl hd] at this
+      have hlen0 : n.length > 0 := by
+        cases n with
+        | nil => exact absurd rfl hne
+        | cons a as => simp
+      have htn : testName1 d n NAME_NEED = true := by
+        unfold testName1
+        have : ¬ n.length < 1 := by omega
+        simp [this, hlegal, NAME_NEED, hl]
+      rw [hrun, unmountCmd_world cfg d n w' hlen0 htn]
+      exact htr
+
+/-! #### non-vacuity of section 6: a world with a kernel table -/
+
+namespace SpecEx
+open Lc.Spec.World Lc.StateProbe
+
+/-- layers `a` (base, import proc) and `b` (on `a`); `cfgB` is `b`'s layerconfig -/
+def fsOf (cfgB : Bytes) : Fs.Tree :=
+  [(b!"/", .dir), (b!"/proc", .dir), (b!"/lc", .dir), (b!"/lc/layers", .dir), (b!"/lc/exports", .dir),
+   (b!"/lc/layers/a", .dir), (b!"/lc/layers/a/layerconfig", .file b!"import proc /proc /proc\n"),
+   (b!"/lc/layers/a/build", .dir), (b!"/lc/layers/a/build/proc", .dir),
+   (b!"/lc/layers/b", .dir), (b!"/lc/layers/b/layerconfig", .file cfgB),
+   (b!"/lc/layers/b/build", .dir), (b!"/lc/layers/b/build/proc", .dir)]
+def kRoot : Kernel.KMnt :=
+  { id := 1, parent := 0, dev := b!"8:1", root := b!"/", mp := b!"/", fstype := b!"ext4", source := b!"/dev/sda1" }
+def kProcHost : Kernel.KMnt :=
+  { id := 2, parent := 1, dev := b!"0:5", root := b!"/", mp := b!"/proc", fstype := b!"proc", source := b!"proc" }
+def kProcOf (id : Nat) (n : Bytes) : Kernel.KMnt :=
+  { id := id, parent := 1, dev := b!"0:5", root := b!"/", mp := b!"/lc/layers/" ++ n ++ b!"/build/proc",
+    fstype := b!"proc", source := b!"/proc" }
+def world (cfgB : Bytes) (ks : List Kernel.KMnt) : World :=
+  { fs := fsOf cfgB, kt := { mnts := [kRoot, kProcHost] ++ ks, nextId := 200 } }
+
+/-- `a` has its proc import mounted: protected; remove, rename, rebase refused -/
+def wA : World := world b!"base a\n" [kProcOf 100 b!"a"]
+example := protected_refused exCfg [] wA (by decide) b!"a" (by decide) (by decide)
+example : mountedAtOrBelow (instOf exCfg wA) b!"a" = true ∧ protectedL (instOf exCfg wA) [] b!"b" = false := by
+  decide
+
+/-- nothing mounted, a process with its cwd in `b`'s build directory: `b` is protected, and so
+    is its parent `a` against rename / rebase -/
+def wB : World := world b!"base a\n" []
+def usersB : List (Bytes × List User) := [(b!"b", [⟨1, b!"build"⟩])]
+example := protected_refused exCfg usersB wB (by decide) b!"b" (by decide) (by decide)
+example := child_protected_refused_partial exCfg usersB wB (by decide) (by decide) b!"a" b!"b"
+  (by decide) (by decide) (by decide) (by decide)
+example : protectedL (instOf exCfg wB) usersB b!"a" = false := by decide
+
+/-- umount: a process in `a`'s build directory blocks it (nothing is unmounted); a process
+    elsewhere in the layer directory (`packages`) does not -/
+def usersA : List (Bytes × List User) := [(b!"a", [⟨1, b!"build/usr"⟩])]
+example := umount_blocked_refused exCfg usersA wA (by decide) (by decide) b!"a" (by decide) (by decide)
+def usersA' : List (Bytes × List User) := [(b!"a", [⟨1, b!"packages"⟩])]
+example : ∃ mp rest, atOrBelow (buildDir (instOf exCfg wA) b!"a") mp = true ∧
+    (run exCfg usersA' (.umount b!"a" false) wA).2.trace = wA.trace ++ Op.umount mp 0 :: rest :=
+  umount_free_proceeds_partial exCfg usersA' wA (by decide) (by decide) (by decide) (by decide) (by decide)
+    b!"a" (by decide) ⟨b!"a", Layerfile.readLayerFile b!"import proc /proc /proc\n"⟩ (by rfl)
+    (by decide) (by decide) (by decide) (by decide +kernel) (by decide) (by decide) (by decide)
+/-- … and indeed (kernel evaluation of the whole run): one unmount call, on `a`'s proc mount -/
+example : (run exCfg usersA' (.umount b!"a" false) wA).2.trace = [Op.umount b!"/lc/layers/a/build/proc" 0] := by
+  decide +kernel
+
+end SpecEx
+
+open Lc.Spec.World Lc.StateProbe in
+/-- **A child in the error state does not protect its parent** (the hypothesis `hmsg` of
+    `child_protected_refused_partial` cannot be dropped; reproduced on the implementation with
+    `./check C04 --replay`: "rename of a protected layer succeeded", likewise rebase).  `b` is a
+    direct child of `a`, its layerconfig has a line the reader does not understand (one
+    message: error state), and its proc import is mounted, so `b` is protected.
+    `ProbeAllLayerstate` skips layers in the error state: `b`'s record lists no mounts, and
+    `rename a c` goes ahead and succeeds, changing the tree under a mounted layer's parent. -/
+theorem child_in_error_state_not_protected_witness :
+    let w := SpecEx.world b!"base a\nbogus line\n" [SpecEx.kProcOf 101 b!"b"]
+    (∀ k ∈ w.kt.mnts, Lc.KernelWF.KWF k) ∧
+    ((diskLayers (instOf exCfg w)).map (·.name)).Nodup ∧
+    b!"b" ∈ childrenOf (diskLayers (instOf exCfg w)) b!"a" ∧
+    protectedL (instOf exCfg w) [] b!"b" = true ∧
+    (diskLayers (instOf exCfg w)).map (fun dl => (dl.name, dl.file.nmsgs)) = [(b!"a", 0), (b!"b", 1)] ∧
+    (run exCfg [] (.rename b!"a" b!"c" []) w).1.toOption.isSome = true ∧
+    (run exCfg [] (.rename b!"a" b!"c" []) w).2.fs ≠ w.fs := by
+  refine ⟨by decide, by decide, by decide, by decide, by decide, by decide +kernel, by decide +kernel⟩
 
 end Lc.Props.C04
